@@ -15,7 +15,9 @@ func VerifLexBytes(prefixID int, L int) {
 }
 
 func verifSeed(id int) string {
-	seeds := []string{"", "%union", "%{", "/*", "//", "'", "\"", "{", "$", "%token <", "%token", "%start", "%type", "%left", "%%", "%token A\n%%\nA:", "%%\nA : B %prec", "%token <t> A 'c'\n%type <t> B\n%start B\n%%\nB: A {x} |"}
+	seeds := []string{"", "%union", "%{", "/*", "//", "'", "\"", "{", "$", "%token <", "%token", "%start", "%type", "%left", "%%", "%token A\n%%\nA:", "%%\nA : B %prec", "%token <t> A 'c'\n%type <t> B\n%start B\n%%\nB: A {x} |",
+		// non-ASCII text: a digit that is not 0-9, a letter, an invalid byte
+		"\u0663", "%token A\n\u0663", "\u00e9", "%token \u00e9", "\xff", "%%\nA: '\u00e9"}
 	if id < 0 || id >= len(seeds) {
 		return ""
 	}
